@@ -522,7 +522,10 @@ func main() {
 	// 3. the same option lists through the command-line path (-g go:<list>): what Targets() hands to
 	// HandleOptions must configure the backend exactly as the list given to HandleOptions directly
 	cmdLists := [][]string{{"use_package=a.b/c=d.e/f"}, {"gen_setter", "use_package=x/y=z/w"}, {"use_package=x/y=z/w", "gen_setter=false"}, {"use_package=p=q", "use_package=r=s"}, {"naming_style=apache", "use_package=m=n", "template=slim"},
-		{"thrift_import_path=github.com/a/b"}, {"package_prefix=a/b", "gen_deep_equal=true", "use_package=k=l"}, {"json_enum_as_text", "keep_unknown_fields=true", "validate_set=false"}}
+		{"thrift_import_path=github.com/a/b"}, {"package_prefix=a/b", "gen_deep_equal=true", "use_package=k=l"}, {"json_enum_as_text", "keep_unknown_fields=true", "validate_set=false"},
+		// an explicit template next to enable_nested_struct: the command-line adaptation may only add a template, never replace one
+		{"template=raw_struct", "enable_nested_struct"}, {"enable_nested_struct", "template=raw_struct"}, {"enable_nested_struct=true", "template=raw_struct", "gen_deep_equal"},
+		{"template=slim", "enable_nested_struct"}, {"enable_nested_struct=false", "template=raw_struct"}, {"gen_setter", "template=raw_struct", "enable_nested_struct=true"}}
 	for _, l := range cmdLists {
 		g := "go:" + strings.Join(l, ",")
 		a := &args.Arguments{Langs: []string{g}}
